@@ -9,7 +9,7 @@ COMMON_TRUST = [
     "machine integers as mathematical integers (overflow outside the claim; counters assumed < 2^20 where arithmetic occurs)",
 ]
 
-BROKER_H = ["eventlogger/broker_state.go", "eventlogger/broker_ops.go", "eventlogger/c02.go", "eventlogger/c01_c07_c20.go", "eventlogger/c14.go", "eventlogger/c04.go", "eventlogger/c12.go", "eventlogger/interleave.go", "eventlogger/c19.go", "eventlogger/filesink.go", "eventlogger/history.go"]
+BROKER_H = ["eventlogger/broker_state.go", "eventlogger/broker_ops.go", "eventlogger/c02.go", "eventlogger/c01_c07_c20.go", "eventlogger/c14.go", "eventlogger/c04.go", "eventlogger/c12.go", "eventlogger/interleave.go", "eventlogger/c19.go", "eventlogger/filesink.go", "eventlogger/history.go", "eventlogger/ctx_sym.go", "eventlogger/ctx_native.go"]
 
 PROPS = {
     "C02": dict(
@@ -17,7 +17,7 @@ PROPS = {
         explanation="Sequential symbolic execution of Status.getError, SetSuccessThreshold[Sinks], SuccessThreshold[Sinks] from go/ssa with thresholds, lengths (<=4) and ctx error symbolic; assertions discharged by z3 (unsat of negation).",
         jobs=[dict(harness=BROKER_H, entries=r"^H_C02_", params=dict(quick=dict(K=2, L=2), thorough=dict(K=3, L=3)), shards=dict(quick=1, thorough=8)),
               dict(harness=BROKER_H, entries=r"^H_C01_process_seq$", params=dict(quick=dict(P=2, N=2), thorough=dict(P=3, N=3)), shards=dict(quick=4, thorough=16))],
-        must_reach=["C02.threshold.end", "C02.getError.end", "C02.preserved.end", "C01.process.end"],
+        must_reach=["C02.threshold.end", "C02.getError.end", "C02.preserved.end", "C01.process.end", "C02.cancelled.end", "C02.cancelled.error"],
         bounds=dict(quick="thresholds: any int; complete/completeSinks lengths 0..4", thorough="same"),
         trusted_base=COMMON_TRUST,
     ),
@@ -127,10 +127,10 @@ PROPS["C04"] = dict(
 PROPS["C12"] = dict(
     level="other",
     explanation="Every Broker API call executed symbolically with a registered node that re-enters Send on the same broker from Process, Close or Reopen; the RWMutex contract of the executor reports (a) any acquisition of a lock the goroutine already holds in a conflicting mode (self-deadlock) and (b) a recursive read lock (deadlocks behind a queued writer under Go's writer preference); locks held at return are asserted empty. Counterexamples are replayed natively with a watchdog (and, for (b), a stream of concurrent writers).",
-    jobs=[dict(harness=BROKER_H, entries=r"^H_C12_reentry$", params=dict(quick={}, thorough={}), shards=dict(quick=4, thorough=4)),
+    jobs=[dict(harness=BROKER_H, entries=r"^H_C12_reentry$|^H_C12_every_call_releases$", params=dict(quick={}, thorough={}), shards=dict(quick=4, thorough=4)),
           dict(harness=BROKER_H, entries=r"^H_C12_reentry_vs_writer$", params=dict(quick={}, thorough={}), shards=dict(quick=4, thorough=8), maxswitches=dict(quick=3, thorough=5), instrument_locks=True),
           dict(pkg="./filters/gated", harness=["gated/gated.go", "gated/c12.go"], entries=r"^H_C12_", params=dict(quick=dict(G=2), thorough=dict(G=3)), shards=dict(quick=4, thorough=8))],
-    must_reach=["C12.reentry.end", "C12.gated.end", "C12.reentry-vs-writer.end"],
+    must_reach=["C12.reentry.end", "C12.gated.end", "C12.reentry-vs-writer.end", "C12.every-call.end"],
     bounds=dict(quick="12 API operations x re-entry from {Process, Close, Reopen}; one re-entrant node", thorough="same"),
     trusted_base=COMMON_TRUST,
 )
@@ -141,8 +141,10 @@ PROPS["C03"] = dict(
     level="model_checking",
     explanation=EO_NOTE + "Queries (each must be unsat): D deadlock or goroutine leak once all nodes returned; R collector not returned although cancelled (nodes may hang forever); T not returned although never cancelled; U collector loop bound; W send on closed channel / double close / negative WaitGroup / thread panic. Reachability twins must be sat.",
     jobs=[dict(EO_JOB, eo_queries=["twin", "D", "R", "T", "U", "W", "C"]),
-          dict(harness=BROKER_H, entries=r"^H_C12_reentry_vs_writer$", params=dict(quick={}, thorough={}), shards=dict(quick=4, thorough=8), maxswitches=dict(quick=3, thorough=5), instrument_locks=True)],
-    must_reach=[],
+          dict(harness=BROKER_H, entries=r"^H_C12_reentry_vs_writer$", params=dict(quick={}, thorough={}), shards=dict(quick=4, thorough=8), maxswitches=dict(quick=3, thorough=5), instrument_locks=True),
+          # a Send after any Broker call (successful or early-returning) returns: no call leaves a lock behind
+          dict(harness=BROKER_H, entries=r"^H_C12_every_call_releases$", params=dict(quick={}, thorough={}), shards=dict(quick=4, thorough=4))],
+    must_reach=["C12.every-call.end"],
     bounds=dict(quick="all 15 ordered shapes with P<=3 pipelines x N_i in {2,3} nodes; all schedules, cancel instants (never/anywhere), outcomes, node delays", thorough="P<=3 x N_i in {2,3,5} (40 ordered shapes) + P=4 x N_i in {2,3} (16) + (2,2,2,5), (5,3,2,2), 4x4, 5x3; 4 pipelines with two or more 5-node pipelines are outside the claim (solver budget)"),
     assumptions=["received Status values are havocked in the automata (control never depends on them; contents are checked on the sequential harness)", "hand-written Go channel/select/WaitGroup/context semantics of the composer (eo_compose.py) is trusted; latency in seconds is not expressible (enabledness instead)"],
     trusted_base=COMMON_TRUST + ["eo_compose.py: event-order semantics of unbuffered channels, select, close, WaitGroup, context cancellation"],
